@@ -285,6 +285,14 @@ class ParseMCNPCell:
             fillid_u = int(float(first_arg))
         while kw_list and kw_list[-1][0] in '0123456789.+-':
             fill_params.append(to_float(kw_list.pop()))
+        if fillid_bounds is not None and fill_params:
+            # numbers left over after the array: too many entries, or
+            # per-element transformations (which are not supported)
+            msg = (f'expected {fillid_bounds.size()} universe specifications '
+                   f'after FILL keyword, found {len(fill_params)} more '
+                   'number(s); transformations of single lattice elements '
+                   'are not supported')
+            raise ParseMCNPCellError(msg)
         # now handle the case where the number of the
         # transformation was given instead of the transformation
         # parameters
